@@ -242,7 +242,9 @@ def reduced_bases(run, sc):
         for i in ids:
             line = [l for l in b.splitlines() if 'NodeId="i=%d"' % i in l]
             alias = [a for a in ("HasProperty", "HasModellingRule") if 'ReferenceType="%s"' % a in b]
-            if len(line) != 1 or 'ReferenceType="i=%d"' % i in b or ">i=%d<" % i in b.replace(line[0], "").replace("<Alias", "<_") or alias:
+            import re as _re
+            rest = _re.sub(r"<Alias [^>]*>[^<]*</Alias>", "", b.replace(line[0], "") if len(line) == 1 else b)
+            if len(line) != 1 or 'ReferenceType="i=%d"' % i in rest or ">i=%d<" % i in rest or alias:
                 usable = False
                 break
             b = b.replace(line[0] + "\n", "", 1)
